@@ -1,5 +1,6 @@
 import Qentem.Props.C09More
 import Qentem.Proofs.StrToNumCut
+import Qentem.Proofs.StrToNumLongInt
 /-! C09 — mantissas with more fraction digits than the 19-unit window holds (no exponent, or an exponent that leaves the net decimal exponent negative): `0.000ddd…` with 19 or more
 significant digits and `ddd.ddd…` with 18 digits in the window and any number of further fraction digits. The code keeps
 the first 19 resp. 18 significant digits and ignores the rest; the statements are about the **exact** value of the
@@ -267,5 +268,104 @@ theorem real_within_one_ulp_frac_long_exp (c : List Nat) (o e : Nat) (sign : Lis
     (o + sign.length + 19 + rest.length + 1 + es.length + ks.length) rest.length (decVal (d1 :: (xs ++ ys) ++ rest))
     hge hv64 hvhi (by omega) hX t1 t2
   simpa using hres
+
+/-! ### plain integers of 20 or more digits -/
+
+/-- `[+-]? d₁ xs d₂₀ rest` — 20 + |rest| digits, no dot, no exponent, that do not fit 64 bits as a whole (the 20th
+digit overflows, or more digits follow): the value is the exact integer, correctly rounded within one ulp -/
+theorem real_within_one_ulp_long_int (c : List Nat) (o e : Nat) (sign : List Nat) (d1 : Nat) (xs : List Nat) (d20 : Nat)
+    (rest : List Nat)
+    (he : e < 2 ^ 32) (hs : sign = [] ∨ sign = [43] ∨ sign = [45]) (h1 : isNonZeroDigit d1 = true)
+    (hxs : AllDigits xs) (hlen : xs.length = 18) (hd20 : isDigit d20 = true) (hrest : AllDigits rest) (hrl31 : rest.length + 1 < 2 ^ 31)
+    (hcase : (decVal (d1 :: xs) > 0x1999999999999999 ∨ (decVal (d1 :: xs) = 0x1999999999999999 ∧ d20 > 53)) ∨ rest ≠ [])
+    (hu : unitsAt c e o (sign ++ (d1 :: xs ++ d20 :: rest)))
+    (hend : endsAt c e (o + sign.length + 20 + rest.length) contReal) :
+    ClassOutcome (decide (sign = [45])) (decVal (d1 :: xs ++ d20 :: rest)) 0 false
+      (o + sign.length + 20 + rest.length) (strToNum c o e) := by
+  have hdig := isNonZeroDigit_isDigit h1
+  have hf : d1 ≠ 45 ∧ d1 ≠ 43 := by simp [isDigit] at hdig; omega
+  have hu' := (unitsAt_append c e sign (d1 :: xs ++ d20 :: rest) o).1 hu
+  have hu1 : unitsAt c e o (sign ++ [d1]) := (unitsAt_append c e sign [d1] o).2 ⟨hu'.1, hu'.2.1, trivial⟩
+  have hsp := (unitsAt_append c e (d1 :: xs) (d20 :: rest) (o + sign.length)).1 hu'.2
+  have hl19 : (d1 :: xs).length = 19 := by simp; omega
+  have hutail : unitsAt c e (o + sign.length + 19) (d20 :: rest) := by
+    have := hsp.2; rw [hl19] at this; exact this
+  have hQe : o + sign.length + 20 + rest.length ≤ e := by
+    rcases hend with h | ⟨x, hx, _⟩
+    · omega
+    · exact Nat.le_of_lt (rd_lt hx)
+  have hall : AllDigits (d1 :: xs) := by
+    intro y hy
+    rcases List.mem_cons.1 hy with h | h
+    · subst h; exact hdig
+    · exact hxs y h
+  have hge := decVal_ge d1 xs h1
+  rw [hlen] at hge
+  have hvhi := decVal_lt_pow (d1 :: xs) hall
+  rw [hl19] at hvhi
+  have hv64 : decVal (d1 :: xs) < 2 ^ 64 := Nat.lt_of_lt_of_le hvhi (by decide)
+  have hu20 : unitsAt c e (o + sign.length) (d1 :: xs ++ [d20]) :=
+    (unitsAt_append c e (d1 :: xs) [d20] (o + sign.length)).2 ⟨hsp.1, by rw [hl19]; exact ⟨hutail.1, trivial⟩⟩
+  rw [strToNum_after_sign c o e sign d1 hs hu1 hf]
+  by_cases hbig : decVal (d1 :: xs) > 0x1999999999999999 ∨ (decVal (d1 :: xs) = 0x1999999999999999 ∧ d20 > 53)
+  · -- 19 digits kept, 1 + |rest| ignored
+    have hdtail : AllDigits (d20 :: rest) := by
+      intro y hy
+      rcases List.mem_cons.1 hy with h | h
+      · subst h; exact hd20
+      · exact hrest y h
+    have hdr := digitsOn_of_unitsAt c e (d20 :: rest) _ hdtail hutail
+    simp only [List.length_cons] at hdr
+    rw [afterSign_longint_A c e _ (o + sign.length) d1 xs d20 he h1 hxs hlen hd20 hu20 hbig]
+    rw [finishReal_end_ignored c e _ _ _ _ _ 0 (o + sign.length + 20 + rest.length)
+      (by rw [show o + sign.length + 20 + rest.length = o + sign.length + 19 + (rest.length + 1) by omega]; exact hdr)
+      (by omega) hQe he hend 19
+      (by simp only [b2n, Bool.not_false, Bool.true_and, Bool.false_eq_true, if_false]
+          rw [sub32_sub32 _ _ 0 (by omega) (by omega)]; omega)]
+    obtain ⟨t1, t2⟩ := decVal_trunc (d1 :: xs) (d20 :: rest) hdtail
+    have hj : o + sign.length + 20 + rest.length - (o + sign.length + 19) = (d20 :: rest).length := by simp; omega
+    rw [hj]
+    exact realResult_pos_trunc_int _ (decVal (d1 :: xs)) 19 (d20 :: rest).length _ (decVal (d1 :: xs ++ d20 :: rest)) hge hv64
+      (by simpa using hge) (by omega) (by omega) (by simp; omega) t1 t2
+  · -- 20 digits kept, |rest| ≥ 1 ignored
+    have hrne : rest ≠ [] := by
+      rcases hcase with h | h
+      · exact absurd h hbig
+      · exact h
+    obtain ⟨d21, rt, hreq⟩ : ∃ d21 rt, rest = d21 :: rt := by
+      cases rest with
+      | nil => exact absurd rfl hrne
+      | cons a b => exact ⟨a, b, rfl⟩
+    have hd21 : isDigit d21 = true := hrest d21 (by rw [hreq]; simp)
+    have hu21 : unitsAt c e (o + sign.length) (d1 :: xs ++ [d20, d21]) :=
+      (unitsAt_append c e (d1 :: xs) [d20, d21] (o + sign.length)).2 ⟨hsp.1, by
+        rw [hl19]; have := hutail; rw [hreq] at this; exact ⟨this.1, this.2.1, trivial⟩⟩
+    have hur : unitsAt c e (o + sign.length + 20) rest := by
+      have := hutail.2
+      rw [show o + sign.length + 19 + 1 = o + sign.length + 20 by omega] at this; exact this
+    have hdr := digitsOn_of_unitsAt c e rest _ hrest hur
+    have hrl : 0 < rest.length := by rw [hreq]; simp
+    rw [afterSign_longint_B c e _ (o + sign.length) d1 xs d20 d21 he h1 hxs hlen hd20 hd21 hu21 hbig]
+    rw [finishReal_end_ignored c e _ _ _ _ _ 0 (o + sign.length + 20 + rest.length) hdr
+      (by omega) hQe he hend 20
+      (by simp only [b2n, Bool.not_false, Bool.true_and, Bool.false_eq_true, if_false]
+          rw [sub32_sub32 _ _ 0 (by omega) (by omega)]; omega)]
+    have hv20 : decVal (d1 :: xs) * 10 + (d20 - 48) = decVal (d1 :: xs ++ [d20]) := by
+      rw [decVal_append_singleton]
+    have h20lt : decVal (d1 :: xs) * 10 + (d20 - 48) < 2 ^ 64 := by
+      simp [isDigit] at hd20
+      have h2 : (0x1999999999999999 : Nat) * 10 + 5 < 2 ^ 64 := by decide
+      omega
+    have h20ge : 10 ^ 19 ≤ decVal (d1 :: xs) * 10 + (d20 - 48) := by
+      have : (10 : Nat) ^ 19 = 10 ^ 18 * 10 := by decide
+      omega
+    obtain ⟨t1, t2⟩ := decVal_trunc (d1 :: xs ++ [d20]) rest hrest
+    rw [← hv20] at t1 t2
+    have hcat : d1 :: xs ++ [d20] ++ rest = d1 :: xs ++ d20 :: rest := by simp
+    rw [hcat] at t1 t2
+    have hj : o + sign.length + 20 + rest.length - (o + sign.length + 20) = rest.length := by omega
+    rw [hj]
+    exact realResult_pos_trunc_int _ _ 20 rest.length _ (decVal (d1 :: xs ++ d20 :: rest))
+      (Nat.le_trans (by decide) h20ge) h20lt (by simpa using h20ge) (by omega) (by omega) (by omega) t1 t2
 
 end Qentem.Props.C09
